@@ -126,6 +126,7 @@ mut("C05-rexp-scale-is-rate", "C05", DI, "    if n > 1:\n        return rvs(scal
 mut("C05-clock-bias", "C05", SS, "    tau = [rexp(1, r, seed=seed) if r > 0 else np.inf for r in rates]", "    tau = [rexp(1, r, seed=seed)*(1.0 + 0.15*(i == 0)) if r > 0 else np.inf for i, r in enumerate(rates)]")
 mut("C06-state-index-sorted", "C06", BL, "        self._stateIndex = self._ode.get_state_index(self._stateName)", "        self._stateIndex = sorted(self._ode.get_state_index(self._stateName))")
 mut("C06-observe-time-shift", "C06", BL, "                                              self._x0, self._t0,\n                                              self._observeT,", "                                              self._x0, self._t0,\n                                              self._t[:-1] if len(self._t) > 6 else self._observeT,")
+rev("C06-revert-D19-integer-x0", "C06", "a065101")
 rev("C07-revert-D5-sorted-index", "C07", "63e0d2e")
 rev("C07-revert-D6-target-state", "C07", "3a7ee3a")
 rev("C07-revert-D7-gamma", "C07", "6aab358")
